@@ -1,7 +1,7 @@
 //! Element classes, side table (id -> val), ledger, callback counter / panic injection.
 #![allow(static_mut_refs)]
 
-use crate::alloc::{SCOPE, WINDOW};
+use crate::alloc::WINDOW;
 
 pub const MAXID: usize = 65536;
 // ledger states
@@ -22,23 +22,6 @@ pub static mut INJECTED: bool = false;
 pub static mut LEDGER_HITS: u32 = 0;
 pub static mut EQ_SCRIPT: Vec<bool> = Vec::new();
 pub static mut EQ_POS: usize = 0;
-
-/// RAII: suspend allocator tracking while harness bookkeeping runs inside an operation
-pub struct Untracked(bool);
-impl Untracked {
-  pub fn enter() -> Self {
-    unsafe {
-      let old = SCOPE;
-      SCOPE = false;
-      Untracked(old)
-    }
-  }
-}
-impl Drop for Untracked {
-  fn drop(&mut self) {
-    unsafe { SCOPE = self.0 }
-  }
-}
 
 pub fn ledger(args: core::fmt::Arguments) {
   unsafe { LEDGER_HITS += 1 };
